@@ -360,6 +360,15 @@ class C07(object):
             p = gen.lin_of(d[o], base)
             if not self.hist_close(p, want.get(k, 0), lin):
                 return '%s: lookup gives P(%s) = %r, the definition gives %s = %r' % (what, list(k), p, want.get(k, 0), float(want.get(k, 0)))
+            # membership with and without null outcomes: a member of the sample space "has" positive probability exactly
+            # when its weight is positive (weights within the linear null tolerance may have been trimmed: not judged)
+            w_ = want.get(k, 0)
+            if not bool(d.has_outcome(o, null=True)):
+                return '%s: has_outcome(%s) is False for a member of the sample space' % (what, list(k))
+            if w_ == 0 or w_ > Fraction(1, 10 ** 7):
+                if bool(d.has_outcome(o, null=False)) != (w_ > 0):
+                    return '%s: has_outcome(%s, null=False) is %s, its probability is %s' % (
+                        what, list(k), bool(d.has_outcome(o, null=False)), w_)
         for k, w in want.items():
             if w > Fraction(1, 10 ** 8) and k not in seen:
                 return '%s: the outcome %s of weight %s is not in its sample space' % (what, list(k), w)
